@@ -89,6 +89,42 @@ def roundtrip_small_rest(w, shape, opt):
     roundtrip_small(w, shape, opt)
 
 
+@obligation('C03.shared_object', 'C03', cases=[{'opt': i} for i in (0, 3, 5)], fuc=FUC, assumes=[CRCASSUME, 'T3 SHA-256 uninterpreted'],
+            descr='history independence of to_boc: ONE cell object (with a child) is serialised inside two different bags, where it and its '
+                  'child get different cell numbers, and then on its own: every bag round-trips (a per-cell cache of serialised bytes '
+                  'would carry the reference indexes of the first bag into the second); contents symbolic')
+def shared_object(w, opt):
+    MC = importlib.import_module('pytoniq_core.boc.cell')
+    MD = importlib.import_module('pytoniq_core.boc.deserialize')
+    from pytoniq_core.boc.cell import Cell
+    from pytoniq_core.boc.tvm_bitarray import TvmBitarray
+    ids = iter(range(1, 20))
+
+    def mk(name, n, refs):
+        # concrete data lengths (the lengths are C03.roundtrip.small's subject), symbolic contents, concrete identity hash
+        bits = w.bits(name, n)
+        c = Cell(w.mk_bitarray(TvmBitarray, bits, 1023), list(refs))
+        if w.symbolic:
+            c._hash = bytes([next(ids)]) * 32
+        c._vf = dict(bits=bits, b=n, m8=n % 8, kids=list(refs))
+        return c
+    payload = mk('payload', 13, [])
+    mid = mk('mid', 8, [payload])
+    x, y = mk('x', 5, []), mk('y', 16, [])
+    bag1 = mk('root1', 3, [x, y, mid])          # mid late: numbers 3 / 4
+    bag2 = mk('root2', 7, [mid, x])             # mid early: numbers 1 / 2
+
+    def crc(data, *a):
+        return w.uf('crc32c', w.bytes_seq(data))
+    with w.stub(MC, 'crc32c', crc), w.stub(MD, 'crc32c', crc):
+        for nm, root in (('first bag', bag1), ('second bag', bag2), ('the shared cell alone', mid), ('first bag again', bag1)):
+            data = root.to_boc(**C04.OPTS[opt])
+            k, back = call(Cell.one_from_boc, data)
+            w.claim(f'{nm}: parses ({back if k != "ok" else ""})', k == 'ok')
+            if k == 'ok':
+                w.claim(f'{nm}: same structure and hash', w.And(_same(w, back, root), back.hash == root._hashes[-1]))
+
+
 def _walk(c, out=None):
     out = [] if out is None else out
     out.append(c)
